@@ -19,9 +19,9 @@ Expected(r) == ToString(SrcVal(r.op, r.a, r.b))
 Defined(r) == SrcDefined(r.op, r.a, r.b)
 
 \* C01 / C04 (rule level, bound to the code): the WebAssembly prints the language's result
-WasmOK == (l > 1 /\ R.kind # "shift" /\ Defined(R)) => (R.wasm0 = Expected(R) /\ R.wasm31 = Expected(R))
+WasmOK == (l > 1 /\ R.kind \notin {"shift", "chain"} /\ Defined(R)) => (R.wasm0 = Expected(R) /\ R.wasm31 = Expected(R))
 \* C04: the TypeScript prints the same, outside the recorded Math.floor finding
-TsOK == (l > 1 /\ R.kind # "shift" /\ Defined(R) /\ ~KnownNegDiv(R.op, R.a, R.b)) => (R.ts0 = Expected(R) /\ R.ts31 = Expected(R))
+TsOK == (l > 1 /\ R.kind \notin {"shift", "chain"} /\ Defined(R) /\ ~KnownNegDiv(R.op, R.a, R.b)) => (R.ts0 = Expected(R) /\ R.ts31 = Expected(R))
 \* C02: the optimised build (folding literal operands) behaves as the unoptimised one computes
 \* at run time, including where the language leaves the result to the implementation
 FoldOK == (l > 1 /\ R.kind = "fold") => (R.wasm31 = R.wasm0 /\ (Defined(R) => R.ts31 = R.ts0))
@@ -30,6 +30,15 @@ FoldOK == (l > 1 /\ R.kind = "fold") => (R.wasm31 = R.wasm0 /\ (Defined(R) => R.
 ShiftOK == (l > 1 /\ R.kind = "shift" /\ AddFits(R.x, R.a)) =>
              LET want == ToString(SrcVal(R.op, R.x + R.a, R.b)) IN
              R.wasm0 = want /\ R.wasm31 = want /\ R.ts0 = want /\ R.ts31 = want
+\* C02: `(x OP1 c1) OP2 c2` with a run-time x and literal c1, c2 over the arithmetic operators (the shapes constant
+\* propagation merges: (x + a) + b, (x * a) * b, ...): every build prints the language's answer whenever both steps are
+\* defined (the TypeScript side outside the recorded Math.floor finding)
+ChainDefined(r) == SrcDefined(r.op, r.x, r.a) /\ SrcDefined(r.op2, SrcVal(r.op, r.x, r.a), r.b)
+ChainOK == (l > 1 /\ R.kind = "chain" /\ ChainDefined(R)) =>
+             LET mid == SrcVal(R.op, R.x, R.a)
+                 want == ToString(SrcVal(R.op2, mid, R.b))
+                 tsok == ~KnownNegDiv(R.op, R.x, R.a) /\ ~KnownNegDiv(R.op2, mid, R.b)
+             IN  R.wasm0 = want /\ R.wasm31 = want /\ (tsok => (R.ts0 = want /\ R.ts31 = want))
 \* the known finding is still there exactly where the specification says (used to print KNOWN-FINDING)
 AllConsumed == TLCGet("stats").diameter - 1 = N
 =============================================================================
